@@ -50,22 +50,9 @@ def _chunk(args):
     if unstable:
       out.append(("skip", "pose_unstable_reference", None))
       continue
-    if c["pose"] == "engulfed" and ref:
-      # a sphere centre close to the other geom's axis / centre makes the contact normal a quotient of two small numbers: not comparable in float32
-      illc = False
-      for ax in range(3):
-        for sgn in (+1, -1):
-          d2 = mujoco.MjData(mjm)
-          d2.qpos[:] = mjd.qpos
-          d2.qpos[ax] += sgn * 1e-6
-          mujoco.mj_kinematics(mjm, d2)
-          mujoco.mj_collision(mjm, d2)
-          r2 = collide.contacts_of(d2)
-          if len(r2) != len(ref) or any(np.abs(a["frame"][0] - b["frame"][0]).max() > 2e-5 or abs(a["dist"] - b["dist"]) > 5e-6 for a, b in zip(ref, r2)):
-            illc = True
-      if illc:
-        out.append(("skip", "ill_conditioned_engulfed", None))
-        continue
+    if c["pose"] == "engulfed" and ref and collide.ill_conditioned(mjm, mjd):
+      out.append(("skip", "ill_conditioned_engulfed", None))
+      continue
     # the specification's discrete expectations, checked on MuJoCo first (spec bug otherwise)
     if ref:
       if ref[0]["dim"] != case["condim"] or abs(ref[0]["friction"][0] - case["friction"] / 10) > 1e-9:
